@@ -52,7 +52,9 @@ TEnum(names) == <<"enum", names>>      \* JSONCONS_ENUM_TRAITS / ENUM_NAME_TRAIT
 \* a class member: serialized name, type, mandatory?, and the value the C++ class holds when a
 \* non-mandatory member is absent ("the rest can have default values" [GEN (1)..(26)])
 Mem(n, T, mand, dflt) == [n |-> n, t |-> T, m |-> mand, d |-> dflt]
-TStruct(ms) == <<"struct", ms>>        \* any of the N_/ALL_ MEMBER / CTOR_GETTER / GETTER_SETTER (NAME) macros
+\* fam names the macro family that declares the traits: "member" (N_/ALL_MEMBER[_NAME], TPL_ variants), "ctor"
+\* (N_/ALL_CTOR_GETTER[_NAME]), "getset" (N_/ALL_GETTER_SETTER[_NAME]); the documented behaviour is the same for all three
+TStruct(fam, ms) == <<"struct", ms, fam>>
 TPoly(Ss) == <<"poly", Ss>>            \* JSONCONS_POLYMORPHIC_TRAITS(base, derived...) [GEN (27), A4]
 TBits(n) == <<"bits", n>>              \* std::bitset<n>         [BI bitset]
 TSecs == <<"secs">>                    \* std::chrono::seconds   [BI duration]
